@@ -643,9 +643,45 @@ def rt_repo():
     return REPO
 
 
+def _probe_seeded_at_scale():
+    """randomised public functions at sizes no symbolic bound reaches (a change may switch algorithm - and generator - above a size threshold):
+    the same NumPy seed gives the same value, also with other pyrepseq calls in between, and arguments stay untouched"""
+    import numpy as np
+    import pyrepseq
+    from pyrepseq import stats, distance, plotting
+    rnd = np.random.RandomState(12345)
+    big_counts = [600000, 400001, 7, 0, 2]                      # 1 000 010 individuals
+    mid_counts = [70000, 30000, 5]
+    seqs = ["C" + "".join(rnd.choice(list("ACDEFGHIKLMNPQRSTVWY"), 8)) + "F" for _ in range(3000)]
+    labels = [int(x) for x in rnd.randint(0, 400, size=5000)]
+    calls = {
+        "subsample(1 000 010 individuals, n=1000)": lambda: [a.tolist() for a in stats.subsample(list(big_counts), 1000)],
+        "subsample(100 005 individuals, n=500)": lambda: [a.tolist() for a in stats.subsample(np.array(mid_counts), 500)],
+        "downsample(3000 sequences, 100)": lambda: list(distance.downsample(list(seqs), 100)),
+        "powerlaw_sample(size=200000)": lambda: float(np.sum(stats.powerlaw_sample(size=200000, xmin=1, alpha=2.5))),
+        "pcDelta(3000 sequences, maxseqs=60)": lambda: distance.pcDelta(list(seqs), maxseqs=60, normalize=False).tolist(),
+        "labels_to_colors_hls(5000 labels)": lambda: [tuple(map(float, c)) for c in plotting.labels_to_colors_hls(list(labels))[:50]],
+    }
+    bad = []
+    for name, fn in calls.items():
+        np.random.seed(77)
+        r1 = fn()
+        pyrepseq.symdel(["CASSF", "CASSL"], max_edits=1)          # deterministic calls in between do not consume randomness
+        stats.pc(["a", "b", "a"])
+        np.random.seed(77)
+        r2 = fn()
+        if r1 != r2:
+            bad.append(f"{name}: two calls with np.random.seed(77) differ")
+    if big_counts != [600000, 400001, 7, 0, 2] or len(seqs) != 3000:
+        bad.append("an argument was modified")
+    return not bad, "[seeded-at-scale probe] " + ("; ".join(bad) if bad else "ok")
+
+
 def conditions(tier):
     out = []
     for name in _scenarios():
         out.append(Condition(f"C20/{name}", _body(name), _replay(name), budget=600 if tier == "quick" else 3000, models=M, setup=_setup,
                              bounds=f"inductive step for {name}: arguments, all mutable defaults, result before/after havoc + interposed calls"))
+    out.append(hc.probe_condition("C20/probe/randomised-calls-at-scale", "subsample on 10^5 and 10^6+ individuals, downsample / pcDelta(maxseqs) on 3000 sequences, powerlaw_sample of "
+                                  "200 000 draws, labels_to_colors_hls on 5000 labels: same NumPy seed -> same value, arguments untouched", _probe_seeded_at_scale))
     return out
